@@ -10,6 +10,10 @@ PLAN = dict(
         # addition to every .sc program of the default directories and corpus/axlin
         step("codegen-a64", "codegen-a64", "codegen-a64", 120, 1200,
              args=["--defaults", os.path.join(ROOT, "corpus", "axlin")]),
+        # the repaired table dispatch beyond the 12-bit ADD immediate (C14 finding "tag dispatch immediate"): model = crate and
+        # the emitted code on A64Sem = the AxCut machine on corpus/c14/wide (invoke of destructor 1099 of 1100)
+        step("tag-dispatch-regression", "codegen-a64", "codegen-a64", 2, 2, shards_thorough=1,
+             args=[os.path.join(ROOT, "corpus", "c14", "wide")]),
     ],
     rule="linear AxCut programs: (a) every .sc program under /repo/examples, /repo/testsuite, corpus/fun and corpus/axlin through the real "
          "pipeline (corpus/axlin holds the regression inputs of the two repaired defects: 12/13/14 live integers around a print; switch on a "
@@ -44,7 +48,7 @@ PLAN = dict(
                 "args_i64, tags_i64, asm_wf, code_small, arity, heap_fits); non-vacuity on the heap example program hx_lin evaluated on "
                 "both machines. The correspondence + execution of the implementation's output on the ISA model against the AxCut machine "
                 "on every run ties the model to the Rust code."
-                " Round 4: asm_wf and code_small are theorems (C14_a64_compile_asm_wf, C14_a64_compile_code_small_reach): C07_codegen_simulates / C07_codegen_correct_linearized take boolean guards on the program instead (labels_guard, imm_guard_a64 = at most 1024 xtors per type, reach_guard_a64 = routine shorter than the 1 MiB reach of B.cond / ADR); tags_i64 follows from imm_guard_a64",
+                " Round 4: asm_wf and code_small are theorems (C14_a64_compile_asm_wf, C14_a64_compile_code_small_reach): C07_codegen_simulates / C07_codegen_correct_linearized take boolean guards on the program instead (labels_guard, reach_guard_a64 = routine shorter than the 1 MiB reach of B.cond / ADR; tags_i64 stays); the table dispatch beyond the 12-bit ADD immediate is repaired (offset through X3: C07_selection_add_offset; regression step tag-dispatch-regression on corpus/c14/wide)",
     assumptions=["Sem/A64Sem.v is the meaning of the emitted instructions (follows the Arm ARM; cannot be run on hardware in this sandbox; "
                  "validated against the AxCut machine on every run)",
                  "Sem/AxSem.v run_linear is the meaning of linear AxCut",
